@@ -7,7 +7,6 @@ package main
 // the model (Model/Inject.v) and from the specification (Spec/InjectSpec.v).
 
 import (
-	"bytes"
 	"fmt"
 	"go/ast"
 	"go/parser"
@@ -338,7 +337,7 @@ func genC06Name(r *gal.Rng, i int) string {
 }
 
 func runC06(c *Ctx) error {
-	w := gal.NewWriter("C06", c.Out, "Run.Run_C06", 100)
+	w := gal.NewWriter("C06", c.Out, "Run.Run_C06", 70)
 	r := c.Rng
 	nFiles, nExotic := 260, 60
 	if c.Thorough {
@@ -489,7 +488,9 @@ func c06Findings(tmp string) []map[string]interface{} {
 		_, _, _ = libRun(p)
 		return readStr(p)
 	}
-	hasKey := func(out, key string) bool { return strings.Contains(out, " "+key+":\"b\"`") || strings.Contains(out, "`"+key+":\"b\"`") }
+	hasKey := func(out, key string) bool {
+		return strings.Contains(out, " "+key+":\"b\"`") || strings.Contains(out, "`"+key+":\"b\"`")
+	}
 	var fs []map[string]interface{}
 	{
 		in1 := "package p\n\ntype A struct {\n\tE int `` // @tag a:\"b\"\n}\n"
@@ -516,7 +517,7 @@ func c06Findings(tmp string) []map[string]interface{} {
 
 // ---- C07 ----
 func runC07(c *Ctx) error {
-	w := gal.NewWriter("C07", c.Out, "Run.Run_C06", 80)
+	w := gal.NewWriter("C07", c.Out, "Run.Run_C06", 40)
 	r := c.Rng
 	nFiles := 150
 	if c.Thorough {
@@ -639,7 +640,7 @@ type c19File struct {
 }
 
 func runC19(c *Ctx) error {
-	w := gal.NewWriter("C19", c.Out, "Run.Run_C19", 40)
+	w := gal.NewWriter("C19", c.Out, "Run.Run_C19", 20)
 	r := c.Rng
 	nTrees := 120
 	if c.Thorough {
@@ -873,5 +874,3 @@ func treeDesc(files []c19File) []map[string]string {
 	}
 	return out
 }
-
-var _ = bytes.Equal
